@@ -28,12 +28,13 @@ static size_t train(const tparams* T, void* dict, size_t cap, const void* sample
     }
 }
 
+static unsigned g9_np; static uint8_t g9_plen[13001]; static uint16_t g9_order[13001 * 6]; static uint8_t g9_noise[13001 * 6];
 static void run_case(long idx)
 {
     vrng r = vr_make(V.seed, 118, (uint64_t)idx);
     /* ---- sample set */
     unsigned nb; size_t sizes[1200]; size_t total = 0; const char* sclass;
-    int const scl = (int)vr_u(&r, 9); int fam = vr_chance(&r, 2, 3) ? DF_TEXT : (int)vr_u(&r, DF_NB);
+    int const scl = (idx % 40) == 7 ? 9 : (int)vr_u(&r, 9); int fam = vr_chance(&r, 2, 3) ? DF_TEXT : (int)vr_u(&r, DF_NB);
     switch (scl) {
     case 0: nb = vr_u(&r, 4); for (unsigned i = 0; i < nb; i++) sizes[i] = vr_u(&r, 200); sclass = "0..3-samples"; break;
     case 1: nb = 5 + vr_u(&r, 40); for (unsigned i = 0; i < nb; i++) sizes[i] = vr_u(&r, 9); sclass = "tiny-samples"; break;
@@ -42,14 +43,22 @@ static void run_case(long idx)
     case 4: nb = 1; sizes[0] = 20000 + vr_u64(&r, V.thorough ? 2000000 : 500000); sclass = "one-huge-sample"; break;
     case 5: nb = 2 + vr_u(&r, 6); for (unsigned i = 0; i < nb; i++) sizes[i] = 1 + vr_u(&r, 60); sclass = "below-minimums"; break;
     case 6: nb = 300 + vr_u(&r, V.thorough ? 800 : 300); for (unsigned i = 0; i < nb; i++) sizes[i] = vr_chance(&r, 1, 10) ? 0 : 200 + vr_u(&r, V.thorough ? 3000 : 1200); sclass = "many-with-empty-samples"; break;
+    case 9: {   /* 11000..13000 distinct incompressible patterns of 20..43 bytes, each occurring exactly 6 times in shuffled order, every occurrence followed by 5..11 noise bytes:
+                 * more distinct repeated segments than the candidate tables of the trainers hold (10000 by default) */
+        g9_np = 11000 + vr_u(&r, 2001); size_t tot9 = 0; for (unsigned i = 0; i < g9_np; i++) g9_plen[i] = (uint8_t)(20 + vr_u(&r, 24));
+        unsigned const no = g9_np * 6; for (unsigned u = 0; u < no; u++) g9_order[u] = (uint16_t)(u % g9_np); for (unsigned u = no - 1; u > 0; u--) { unsigned const j = vr_u(&r, u + 1); uint16_t const t = g9_order[u]; g9_order[u] = g9_order[j]; g9_order[j] = t; }
+        for (unsigned u = 0; u < no; u++) { g9_noise[u] = (uint8_t)(5 + vr_u(&r, 7)); tot9 += g9_plen[g9_order[u]] + g9_noise[u]; }
+        nb = 64; for (unsigned i = 0; i < nb; i++) sizes[i] = tot9 / 64; sizes[63] = tot9 - (tot9 / 64) * 63; sclass = "10000+-distinct-repeated-segments"; break; }
     default: nb = 50 + vr_u(&r, V.thorough ? 600 : 300); for (unsigned i = 0; i < nb; i++) sizes[i] = 100 + vr_u(&r, V.thorough ? 4000 : 1500); sclass = "regular"; break;
     }
     for (unsigned i = 0; i < nb; i++) total += sizes[i];
     gbuf S = gb_alloc(total, 0);          /* sizes sum exactly to the buffer (contract); exact-size buffer: any read past it faults */
     if (scl == 3) { uint8_t pat[300]; vr_fill(&r, pat, 300); for (size_t o = 0; o + 300 <= total; o += 300) memcpy(S.p + o, pat, 300); }
+    else if (scl == 9) { static uint8_t pat[13001][44]; for (unsigned i = 0; i < g9_np; i++) vr_fill(&r, pat[i], g9_plen[i]);
+        size_t pos = 0; for (unsigned u = 0; u < g9_np * 6; u++) { unsigned const i = g9_order[u]; memcpy(S.p + pos, pat[i], g9_plen[i]); pos += g9_plen[i]; vr_fill(&r, S.p + pos, g9_noise[u]); pos += g9_noise[u]; } }
     else gen_data(&r, S.p, total, fam);
     /* ---- algorithm + parameters (at and beyond bounds: rejection is fine) */
-    tparams T; memset(&T, 0, sizeof T); T.algo = (int)vr_u(&r, A_NB);
+    tparams T; memset(&T, 0, sizeof T); T.algo = (int)vr_u(&r, A_NB); if (scl == 9 && vr_chance(&r, 2, 3)) T.algo = A_LEGACY;
     T.d = vr_chance(&r, 1, 2) ? (vr_chance(&r, 1, 2) ? 6 : 8) : vr_u(&r, 20); T.k = vr_chance(&r, 1, 6) ? vr_u(&r, 10) : T.d + vr_u(&r, 2000); if (vr_chance(&r, 1, 10)) T.k = 1u << 20;
     T.f = vr_chance(&r, 1, 8) ? vr_u(&r, 40) : 10 + vr_u(&r, 11); T.accel = vr_chance(&r, 1, 8) ? vr_u(&r, 20) : vr_u(&r, 11); T.steps = vr_chance(&r, 1, 2) ? 0 : 1 + vr_u(&r, 6);
     T.nbThreads = (unsigned)v_opt_long("threads", -1) != (unsigned)-1 ? (unsigned)v_opt_long("threads", 1) : (vr_chance(&r, 1, 3) ? vr_u(&r, 5) : vr_u(&r, 2));
